@@ -110,6 +110,30 @@ def check_dispatch_and_consumption(rep, prog):
                           "next section header would be read from the wrong offset" % (got, exp, env_str(env)))
             else:
                 check_src_consumption(rep, I, st, where)
+            if sid in ZERO_LEN_OK:
+                zero_length_reads(rep, I, where, "C01.R4.consumption")
+
+
+ZERO_LEN_OK = (0x4548, 0x4D54, 0x4C50)
+
+
+def zero_length_reads(rep, I, where, rule):
+    """every length byte of the fixed-layout sections EH / MT / LP may legitimately be 0 (empty symptom id / name):
+    the decoder must not trip over DataStream's refusal of zero-length reads"""
+    for e in I.events:
+        if e.kind == "raise" and any(is_const(x, str) and "non-zero" in x.v for a in e.data for x in walk(a)):
+            g = subst(e.guard, {Op("len", pelx.DATA): Const(1 << 20)})
+            never, env, n = equivalent(pelx.ite(g, Const(1), Const(0)), Const(0))
+            rep.check(never, rule, "%s: no zero-length read is attempted for an empty variable-length field" % where,
+                      where, e.node, "a well-formed section with an empty variable-length field (%s) makes the decoder ask "
+                      "DataStream for 0 bytes, which raises: the whole PEL is rejected by the full decode while the "
+                      "header-only modes still count and list it" % env_str(env), node=e.node)
+
+
+def check_full_decode_accepts(rep, prog, rule):
+    for sid in ZERO_LEN_OK:
+        I, st, out = run_sectionfun(prog, sid, True)
+        zero_length_reads(rep, I, "sectionFun(%s)" % sid_name(sid), rule)
 
 
 def check_src_consumption(rep, I, st, where):
